@@ -132,9 +132,9 @@ def audit(modules, extra_imports=()):
     out = p.stdout + p.stderr
     res = {}
     # outputs look like: 'name' depends on axioms: [a, b]   or   'name' does not depend on any axioms
-    for m in re.finditer(r"'([^']+)' depends on axioms: \[([^\]]*)\]", out, flags=re.S):
+    for m in re.finditer(r"^'(\S+)' depends on axioms: \[([^\]]*)\]", out, flags=re.S | re.M):
         res[m.group(1)] = {a.strip() for a in m.group(2).replace("\n", " ").split(",") if a.strip()}
-    for m in re.finditer(r"'([^']+)' does not depend on any axioms", out):
+    for m in re.finditer(r"^'(\S+)' does not depend on any axioms", out, flags=re.M):
         res[m.group(1)] = set()
     bad = {}
     discharged = 0
